@@ -326,6 +326,64 @@ func build(tier string) []*venum.Check {
 		c.DistinctN(int64(n) * int64(n) * int64(n))
 		c.Sample(map[string]any{"x": U[3].String(), "y": U[40].String(), "z": U[77].String()})
 	}})
+	// vectors over many node ids: the union of two legal vectors may exceed what one vector can be serialised with (65535
+	// entries); the lattice laws do not depend on that. Disjoint and overlapping id ranges whose union lies just below, at and
+	// above the limit (and far above it), against the obvious reference.
+	checks = append(checks, &venum.Check{Name: "large/union-around-65535", Family: "large", Run: func(c *venum.Ctx) {
+		mkRange := func(lo, hi int, count uint64) cluster.VersionVector {
+			m := make(map[string]uint64, hi-lo)
+			for i := lo; i < hi; i++ {
+				m[fmt.Sprintf("n%06d", i)] = count
+			}
+			return cluster.VerifVV(m, false)
+		}
+		type shape struct{ aLo, aHi, bLo, bHi int }
+		var shapes []shape
+		for _, total := range []int{65534, 65535, 65536, 65537, 80000} {
+			half := total / 2
+			shapes = append(shapes, shape{0, half, half, total})       // disjoint
+			shapes = append(shapes, shape{0, half + 100, half, total}) // overlapping by 100 ids
+			shapes = append(shapes, shape{0, total - 1, total - 1, total})
+		}
+		for _, sh := range shapes {
+			in := []string{fmt.Sprintf("a=[%d,%d)x1 b=[%d,%d)x2", sh.aLo, sh.aHi, sh.bLo, sh.bHi)}
+			c.Case(in[0], true)
+			a, b := mkRange(sh.aLo, sh.aHi, 1), mkRange(sh.bLo, sh.bHi, 2)
+			for _, ord := range []string{"a+b", "b+a"} {
+				m := a.Merge(b)
+				if ord == "b+a" {
+					m = b.Merge(a)
+				}
+				missing, wrong := 0, 0
+				for i := sh.aLo; i < sh.bHi; i++ {
+					want := uint64(1)
+					if i >= sh.bLo {
+						want = 2
+					}
+					got := m.Get(fmt.Sprintf("n%06d", i))
+					if got == 0 {
+						missing++
+					} else if got != want {
+						wrong++
+					}
+				}
+				if missing+wrong > 0 {
+					c.Fail("merge-pointwise-max", in, "%s: %d of the %d components are missing from the result, %d have the wrong counter", ord, missing, sh.bHi-sh.aLo, wrong)
+				}
+				if le(m.Compare(a)) && m.Compare(a) != cluster.VersionEqual || le(m.Compare(b)) && m.Compare(b) != cluster.VersionEqual || m.Compare(a) == cluster.VersionConcurrent || m.Compare(b) == cluster.VersionConcurrent {
+					c.Fail("merge-upper-bound", in, "%s is %s a and %s b", ord, orderName(m.Compare(a)), orderName(m.Compare(b)))
+				}
+			}
+			if a.Merge(b).Compare(b.Merge(a)) != cluster.VersionEqual {
+				c.Fail("merge-commutative", in, "a+b is %s b+a", orderName(a.Merge(b).Compare(b.Merge(a))))
+			}
+			// three operands: (a+b)+c vs a+(b+c) with c re-covering the first hundred ids of a with a higher counter
+			cc := mkRange(sh.aLo, sh.aLo+100, 3)
+			if l, r := a.Merge(b).Merge(cc), a.Merge(b.Merge(cc)); l.Compare(r) != cluster.VersionEqual {
+				c.Fail("merge-associative", in, "(a+b)+c is %s a+(b+c)", orderName(l.Compare(r)))
+			}
+		}
+	}})
 	if tier == "thorough" {
 		checks = append(checks, &venum.Check{Name: "sequences/depth4", Family: "sequences", Run: func(c *venum.Ctx) { sequences(c, U, 4) }})
 	} else {
